@@ -25,7 +25,7 @@ def model_analyze(ctx, dump, cfg, root):
         if f[0] == "D":
             fn = UN(f[2])
             rel = os.path.relpath(fn, root) if fn.startswith("/") else fn
-            key = (rel, int(f[3]), int(f[4]), f[5])
+            key = (rel, int(f[3]), int(f[4]), f[5], f[6] if len(f) > 6 else "")
             diags[key] = {"file": rel, "line": int(f[3]), "col": int(f[4]), "code": f[5], "message": UN(f[6]) if len(f) > 6 else "", "pkg": UN(f[1])}
         elif f[0] == "P":
             panics.append((f[1], UN(f[2]) if len(f) > 2 else ""))
